@@ -6,7 +6,7 @@
    sampled by the harness) give for `coef = pinv(sqrt(w) V) @ (sqrt(w) y)`, over every real (ordered) field. *)
 From Coq Require Import ZArith List Bool Arith String.
 Import ListNotations.
-From PB Require Import C08.Model C08.Proofs C08.Flow gen.GenPolyFlow C08.FlowTable.
+From PB Require Import C08.Model C08.Proofs C08.MaxCross C08.Flow gen.GenPolyFlow C08.FlowTable.
 From PB Require C08.NormalEq.
 
 (* ---------------- Part 1: usable coefficients ---------------- *)
@@ -72,6 +72,30 @@ Theorem C08_coef_reproduce_2d : forall (F : Fld), good_field F ->
   = fitted_baseline2d F nx nz mc c lox hix loz hiz x z.
 Proof. intros F [H1 [H2 H3]]. exact (coef_reproduce_2d F H1 H2 H3). Qed.
 Print Assumptions C08_coef_reproduce_2d.
+
+(* max_cross as a statement about monomials: x^a z^b is removed exactly when both exponents are >= 1 and one exceeds
+   max_cross; the removed set is upward closed (so the surviving monomials are closed under lowering exponents, which is
+   what an affine change of variables per axis needs); pure powers always survive; max_cross >= both orders removes nothing *)
+Theorem C08_max_cross_monomials : forall (mc : option nat) (a b : nat),
+  (masked mc a b = true <-> exists m, mc = Some m /\ (1 <= a)%nat /\ (1 <= b)%nat /\ (m < a \/ m < b)%nat)
+  /\ (forall a' b', (a <= a')%nat -> (b <= b')%nat -> masked mc a b = true -> masked mc a' b' = true)
+  /\ (a = O \/ b = O -> masked mc a b = false)
+  /\ (forall m nx nz, mc = Some m -> (nx <= S m)%nat -> (nz <= S m)%nat -> (a < nx)%nat -> (b < nz)%nat -> masked mc a b = false).
+Proof.
+  intros mc a b. split; [apply masked_spec|]. split; [intros a' b'; apply masked_upward|]. split; [apply masked_pure|].
+  intros m nx nz ->. apply masked_none_in_range.
+Qed.
+Print Assumptions C08_max_cross_monomials.
+
+(* the back-transformation keeps the mask: if the fitted coefficients vanish on the removed monomials (which
+   C08_pinv_zero_column gives), the coefficient array returned in the ORIGINAL variables vanishes there too -- for every
+   order pair, every max_cross and every pair of domains (no hypothesis on the domains: T is upper triangular by construction) *)
+Theorem C08_max_cross_preserved : forall (F : Fld), good_field F ->
+  forall (nx nz : nat) (mc : option nat) (c : nat -> T F) (lox hix loz hiz : T F),
+  (forall a b, (a < nx)%nat -> (b < nz)%nat -> masked mc a b = true -> c (a * nz + b)%nat = f0 F) ->
+  forall a b, masked mc a b = true -> convert_coef2d F nx nz c lox hix loz hiz a b = f0 F.
+Proof. intros F [H1 _]. exact (max_cross_preserved F H1). Qed.
+Print Assumptions C08_max_cross_preserved.
 
 (* the hypothesis `good_field` is satisfiable: the canonical rationals, the instance the harness runs *)
 Example C08_good_field_nonvacuous : good_field Fld_Qc.
